@@ -37,6 +37,7 @@ package keyed
 //@ func newRunningRoutine
 //@   props C06 C07
 //@   inline
+//@   opt frame = skip
 //
 //@ func (*runningRoutine).start
 //@   props C07 C13
@@ -76,7 +77,7 @@ package keyed
 //@ func (*runningRoutine).remove$2
 //@   props C06 C07 C13
 //@   opt frame = skip
-//@   requires r != nil && r.k != nil
+//@   captured r != nil && r.k != nil && removeNow != nil
 //
 //@ func (*Keyed).SetContext
 //@   props C07 C13
